@@ -58,8 +58,8 @@ class Cli:
     }
 
     MODEL_GENERATOR_MAPPING: Dict[str, Type[GenericModelCodeGenerator]] = {
-        "base": convert_args(GenericModelCodeGenerator),
-        "attrs": convert_args(AttrsModelCodeGenerator, meta=bool_js_style),
+        "base": convert_args(GenericModelCodeGenerator, post_init_converters=bool_js_style),
+        "attrs": convert_args(AttrsModelCodeGenerator, meta=bool_js_style, post_init_converters=bool_js_style),
         "dataclasses": convert_args(DataclassModelCodeGenerator, meta=bool_js_style,
                                     post_init_converters=bool_js_style),
         "pydantic": convert_args(PydanticModelCodeGenerator),
